@@ -12,6 +12,8 @@ import (
 	"fmt"
 	"io"
 	"math"
+	"os"
+	"path/filepath"
 	"strings"
 
 	parse "github.com/tdewolff/parse/v2"
@@ -48,11 +50,15 @@ func (r *failingReader) Read(b []byte) (int, error) {
 
 // onlyReader is an io.Reader without a Bytes() method (so the stream lexer really streams).
 type onlyReader struct {
-	data []byte
-	off  int
+	data  []byte
+	off   int
+	sizes []int // the sizes of the buffers offered (first 8 calls)
 }
 
 func (r *onlyReader) Read(p []byte) (int, error) {
+	if len(r.sizes) < 8 {
+		r.sizes = append(r.sizes, len(p))
+	}
 	if r.off >= len(r.data) {
 		return 0, io.EOF
 	}
@@ -330,15 +336,18 @@ var All = []Body{
 		fmt.Fprintf(&sb, "%d %v", z2.Peek(0), z2.Err() != nil)
 		return sb.String()
 	}},
-	{"buffer-streamlexer", true, func(v int, step func()) string {
+	{"buffer-streamlexer", true, func(v int, step func()) (obs string) {
 		var sb strings.Builder
+		defer func() { obs = sb.String() }()
 		data := pick(v, "the quick brown fox jumps over the lazy dog", "aa bb cc dd ee ff gg hh ii jj kk")
 		var z *buffer.StreamLexer
+		rd := &onlyReader{data: data}
 		if v%2 == 0 {
-			z = buffer.NewStreamLexerSize(bytes.NewReader(data), 8)
+			z = buffer.NewStreamLexerSize(rd, 8)
 		} else {
-			z = buffer.NewStreamLexer(bytes.NewReader(data))
+			z = buffer.NewStreamLexer(rd)
 		}
+		defer func() { fmt.Fprintf(&sb, " reads=%v", rd.sizes) }()
 		for {
 			c := z.Peek(0)
 			if c == 0 && z.Err() != nil {
@@ -725,6 +734,95 @@ var All = []Body{
 			fmt.Fprintf(&sb, "%c: %d tokens, %d with foreign bytes, err=%v; ", s.ch, s.tokens, s.foreign, s.z.Err())
 			if s.foreign > 0 {
 				sb.WriteString("SELF-CHECK FAILED: a stream lexer returned bytes of another lexer's stream; ")
+			}
+		}
+		return sb.String()
+	}},
+	{"streamlexer-long-token", false, func(v int, step func()) string {
+		var sb strings.Builder
+		// one token much longer than the default buffer, then an ordinary stream with the default constructor
+		long := &onlyReader{data: append(bytes.Repeat([]byte{'x'}, 20000+3000*v), ' ', 'y', ' ')}
+		z := buffer.NewStreamLexer(long)
+		for z.Peek(0) != ' ' && z.Err() == nil {
+			z.Move(1)
+		}
+		fmt.Fprintf(&sb, "long token %d bytes, reads=%v; ", len(z.Shift()), long.sizes)
+		step()
+		small := &onlyReader{data: bytes.Repeat([]byte("ab "), 2500)}
+		z2 := buffer.NewStreamLexer(small)
+		n := 0
+		for {
+			c := z2.Peek(0)
+			if c == 0 && z2.Err() != nil {
+				break
+			}
+			z2.Move(1)
+			if c == ' ' {
+				z2.Shift()
+				z2.Free(z2.ShiftLen())
+				n++
+			}
+		}
+		fmt.Fprintf(&sb, "%d tokens, reads=%v, min buffer %d", n, small.sizes, buffer.MinBuf)
+		return sb.String()
+	}},
+	{"binary-readers-files", false, func(v int, step func()) string {
+		var sb strings.Builder
+		dir, err := os.MkdirTemp("", "c20files")
+		if err != nil {
+			return "no temp dir"
+		}
+		defer os.RemoveAll(dir)
+		contents := [][]byte{{}, {}, []byte("hello"), {1, 2, 3, 4, 5, 6, 7, 8}}
+		var paths []string
+		for i, b := range contents {
+			p := filepath.Join(dir, fmt.Sprintf("f%d", i))
+			os.WriteFile(p, b, 0o600)
+			paths = append(paths, p)
+		}
+		open := func(p string, mmap bool) *parse.BinaryReader {
+			var r *parse.BinaryReader
+			var err error
+			if mmap {
+				r, err = parse.NewBinaryReaderMmapPath(p)
+			} else {
+				r, err = parse.NewBinaryReaderPath(p)
+			}
+			if err != nil {
+				fmt.Fprintf(&sb, "open: %v; ", err != nil)
+				return nil
+			}
+			return r
+		}
+		for _, mmap := range []bool{v%2 == 0, v%2 != 0} {
+			var rs []*parse.BinaryReader
+			for _, p := range paths {
+				rs = append(rs, open(p, mmap))
+			}
+			step()
+			// close the first of the two readers of empty files, then use all the others
+			if rs[0] != nil {
+				fmt.Fprintf(&sb, "close0=%v ", rs[0].Close())
+			}
+			for i, r := range rs[1:] {
+				if r == nil {
+					continue
+				}
+				b := r.ReadBytes(2)
+				all, rerr := io.ReadAll(r)
+				fmt.Fprintf(&sb, "r%d: %q %q err=%v readall=%v len=%d; ", i+1, b, all, r.Err(), rerr, r.Len())
+				step()
+			}
+			for _, r := range rs[1:] {
+				if r != nil {
+					r.Close()
+				}
+			}
+			// an empty file opened after the others were closed
+			if r := open(paths[1], mmap); r != nil {
+				_, rerr := io.ReadAll(r)
+				fmt.Fprintf(&sb, "again: err=%v readall=%v; ", r.Err(), rerr)
+				r.Close()
 			}
 		}
 		return sb.String()
